@@ -97,7 +97,7 @@ func sp(s string) *string { return &s }
 
 func (m c20) genShape(r *RNG) c20shape {
 	var sh c20shape
-	jsonNames := []string{"a", "b", "ab", "name", "id", "x-y", "f_1"}
+	jsonNames := []string{"a", "b", "ab", "name", "id", "x-y", "f_1", "A", "Name", "AB", "aB"}
 	nf := r.Range(0, 7)
 	for i := 0; i < nf; i++ {
 		f := c20field{Name: fmt.Sprintf("F%d", i)}
@@ -460,6 +460,22 @@ func (m c20) runType(c *Ctx, st reflect.Type, exp c20expect, desc string, r *RNG
 		if err != nil {
 			c.Violate("accepted-but-buildtype-fails", "BuildType(%s): %v; shape %s", how, err, desc)
 			return
+		}
+		// BuildType of a typed nil pointer: refusing is fine; a type that comes back must be the right one
+		{
+			var tn jsonapi.Type
+			var en error
+			if pi := Guard(func() { tn, en = jsonapi.BuildType(reflect.Zero(reflect.PtrTo(st)).Interface()) }); pi != nil {
+				fail("BuildType(typed nil pointer)", pi)
+				return
+			}
+			if en == nil {
+				c.Count("buildtype_accepts_typed_nil_pointer")
+				if s := c20compareType(exp, tn.Name, tn.Attrs, tn.Rels); s != "" {
+					c.Violate("built-type-differs/typed-nil-pointer/"+strings.SplitN(s, ":", 2)[0], "BuildType((*T)(nil)): %s; shape %s", s, desc)
+					return
+				}
+			}
 		}
 		// structure
 		if s := c20compareType(exp, typ.Name, typ.Attrs, typ.Rels); s != "" {
